@@ -21,9 +21,10 @@ def expr(node):
                         subs.append((":",))
                     else:
                         st = c.step
-                        if not (isinstance(st, N.Literal) and st.value == "1"):
-                            raise OutOfSubset("strided section")
-                        subs.append(("rng", expr(c.start), expr(c.stop)))
+                        if isinstance(st, N.Literal) and st.value == "1":
+                            subs.append(("rng", expr(c.start), expr(c.stop)))
+                        else:
+                            subs.append(("rng", expr(c.start), expr(c.stop), expr(st)))
                 else:
                     subs.append(expr(c))
             return ("sec", node.name.lower(), subs)
@@ -50,7 +51,7 @@ def expr(node):
         names = list(node.argument_names)
         args = list(node.arguments)
         if nm in ("LBOUND", "UBOUND", "SIZE"):
-            if len(args) != 2 or names[0] is not None or names[1] not in (None, "dim"):
+            if len(args) != 2 or names[0] is not None or (names[1] or "dim").lower() != "dim":
                 raise OutOfSubset("inquiry form")
             a0 = args[0]
             if isinstance(a0, N.ArrayReference):
